@@ -15,6 +15,8 @@ pub struct FaultsSpec {
     #[serde(default)]
     pub c2s_phantom: u32,
     #[serde(default)]
+    pub c2s_truncate: u32,
+    #[serde(default)]
     pub s2c_drop: u32,
     #[serde(default)]
     pub s2c_dup: u32,
@@ -55,6 +57,7 @@ impl Default for FaultsSpec {
             c2s_dup: 0,
             c2s_delay: 0,
             c2s_phantom: 0,
+            c2s_truncate: 0,
             s2c_drop: 0,
             s2c_dup: 0,
             s2c_delay: 0,
@@ -82,6 +85,7 @@ impl FaultsSpec {
             c2s_dup: self.c2s_dup,
             c2s_delay: self.c2s_delay,
             c2s_phantom: self.c2s_phantom,
+            c2s_truncate: self.c2s_truncate,
             s2c_drop: self.s2c_drop,
             s2c_dup: self.s2c_dup,
             s2c_delay: self.s2c_delay,
